@@ -23,6 +23,11 @@ LOCAL_KINDS = {
     'force_schedule', 'condition_schedule', 'dependency', 'force_n',
     'not', 'or', 'and', 'xor', 'implies', 'if_then_else', 'expression', 'force_apply_n',
     'unavailable', 'workload', 'interrupted_fixed', 'same_workers', 'distinct_workers',
+    # C08: follow from the indicator's own assertions
+    'expression', 'utilization', 'nb_tasks_assigned', 'tardiness', 'earliness', 'nb_tardy', 'max_lateness_bound',
+    'max_lateness_attained', 'resource_cost', 'max_buffer_bound', 'max_buffer_attained', 'min_buffer_bound',
+    'min_buffer_attained', 'min_start_bound', 'min_start_attained', 'greatest_start_bound', 'greatest_start_attained',
+    'weighted_starts', 'flowtime', 'weighted_completion', 'indicator_target', 'indicator_lower_bound', 'indicator_upper_bound',
 }
 
 
@@ -69,7 +74,7 @@ def check_one(args):
             else:
                 # an infeasible assertion set entails everything: compare element by element (O2)
                 fw = []
-                for kind, objs in (('task', im.tasks), ('cons', im.cons)):
+                for kind, objs in (('task', im.tasks), ('cons', im.cons), ('ind', im.inds)):
                     for eid, obj in objs.items():
                         tagname = '%s:%d' % (kind, eid)
                         goals = [(t, e) for t, e in ma if t == tagname]
@@ -91,7 +96,7 @@ def check_one(args):
                     elif res == 'unknown':
                         out['unknown'] += 1
             else:
-                for kind, objs in (('task', im.tasks), ('cons', im.cons)):
+                for kind, objs in (('task', im.tasks), ('cons', im.cons), ('ind', im.inds)):
                     for eid, obj in objs.items():
                         tagname = '%s:%d' % (kind, eid)
                         hyps = [e for t, e in ma if t == tagname]
@@ -115,7 +120,7 @@ def check_one(args):
                 for k, e in goals:
                     el = k.split('/')[1]
                     kind, _, eid = el.partition(':')
-                    objs = {'task': im.tasks, 'cons': im.cons}.get(kind)
+                    objs = {'task': im.tasks, 'cons': im.cons, 'ind': im.inds}.get(kind)
                     if objs is None or not eid.isdigit() or int(eid) not in objs:
                         continue
                     if k.split('/')[-1] not in LOCAL_KINDS:
